@@ -2,9 +2,9 @@
 
 HOOKS = {
     "guard": "verif",
-    "enable": "no hook is needed so far: every check drives the exported API of /repo from an external Go module (replace => /repo); C03 additionally builds with the repository's own `debug` tag, which is a configuration of the code under test, not a hook",
+    "enable": "go test -tags verif: only the C19 check builds /repo with the tag (two add-only files, bitmap/verif_hooks.go and bmtree/verif_hooks.go, returning copies of the unexported select8Lookup and idxToPath tables); if the tagged build does not compile the check falls back to the untagged build and its behavioural table checks. Every other check drives the exported API from an external Go module (replace => /repo) with no tag. C03 additionally builds with the repository's own `debug` tag, which is a configuration of the code under test, not a hook",
     "baseline_off_cmd": "cd /repo && GOFLAGS=-mod=mod GOPROXY=off GOSUMDB=off go test -json -vet=off -count=1 -timeout 25m ./...",
-    "source_commits": [],
+    "source_commits": ["399b825"],
     "add_only": True,
 }
 
@@ -112,4 +112,9 @@ META = {
         note="Trusted: the fixed width/header table for 64-bit platforms, the reflect-based builder, toolchain, rapid. Only the kinds the statement lists (no chan/func/unsafe.Pointer), acyclic values.",
         technique="property-based differential testing with an oracle-by-construction (generator returns value and expected size) + kind x container grid",
         design_ref="DESIGN.md 4/C20"),
+    "C19": dict(
+        text="Four generated checks over 34 call kinds that cover the listed functions: (1) every slice/string/[]string argument, including the prebuilt indexes, lives inside canary-guarded memory and is compared with a snapshot after the call; (2) all package tables are compared with independently computed values, with start-up snapshots of the unexported tables (verif hook) and behaviourally through the API; (3) each call is repeated after unrelated calls and with relocated arguments and must return the same result; (4) shared workloads are run sequentially and then by 2/8/32 goroutines in keyed permutations, results compared, in a plain binary and in one built with the Go race detector that halts on the first report. Schedules are sampled, not enumerated: a defect that needs a particular interleaving and leaves no unsynchronised conflicting access is out of reach.",
+        note="Trusted: Go's race detector (happens-before; may miss accesses evicted from shadow memory, mitigated by many rounds), the guard/snapshot code, toolchain, rapid. Not a proof over all interleavings.",
+        technique="property-based purity testing (guarded arguments, table snapshots, repeat/relocate metamorphic relation) + generated concurrent rounds under the race detector",
+        design_ref="DESIGN.md 4/C19"),
 }
